@@ -48,106 +48,7 @@ static void arm(const char *what, size_t inlen) {
 }
 static void disarm(void) { vf_alloc_budget = 0; vf_bytes_budget = 0; vf_cpu_disarm(); }
 
-/* ---- independent port of the documented INI rewriting semantics, with limits (classification only) --- */
-typedef struct { char *name; char *val; } kv_t;
-static kv_t *KV; static int NKV, KVCAP;
-static const char *kv_get(const char *n) { for (int i = NKV - 1; i >= 0; i--) if (!strcmp(KV[i].name, n)) return KV[i].val; return NULL; }
-static void kv_put(const char *n, const char *v) { if (NKV == KVCAP) { KVCAP = KVCAP ? KVCAP * 2 : 64; KV = vf_xrealloc(KV, sizeof(kv_t) * (size_t)KVCAP); } KV[NKV].name = vf_xdup(n, strlen(n) + 1); KV[NKV].val = vf_xdup(v, strlen(v) + 1); NKV++; }
-static void kv_clear(void) { for (int i = 0; i < NKV; i++) { hm_free(KV[i].name); hm_free(KV[i].val); } NKV = 0; }
-static void rtrim(char *s) { size_t a = 0, n = strlen(s); while (a < n && strchr(" \t\r\n", s[a])) a++; while (n > a && strchr(" \t\r\n", s[n - 1])) n--; memmove(s, s + a, n - a); s[n - a] = 0; }
-static char *replace_all(const char *src, const char *tok, const char *word) {
-    size_t tl = strlen(tok), wl = strlen(word), n = strlen(src), cap = n + 1, o = 0;
-    for (const char *p = src; (p = strstr(p, tok)); p += tl) cap += wl;
-    char *out = hm_alloc(cap + 1);
-    for (size_t i = 0; i < n;) { if (!strncmp(src + i, tok, tl)) { memcpy(out + o, word, wl); o += wl; i += tl; } else out[o++] = src[i++]; }
-    out[o] = 0; return out;
-}
-/* returns NULL when the rewriting does not reach a fixpoint within the limits */
-static char *ref_parsestr(const char *str) {
-    char *value = vf_xdup(str, strlen(str) + 1); int rounds = 0; bool loop;
-    do {
-        loop = false;
-        char *s, *e;
-        for (s = value; *s; s++) {
-            if (!(s[0] == '$' && s[1] == '{')) continue;
-            int opened = 1;
-            for (e = s + 2; *e; e++) {
-                if (e[0] == '$' && e[1] == '{') { s = e - 1; break; }
-                else if (*e == '{') opened++; else if (*e == '}') opened--; else continue;
-                if (opened == 0) break;
-            }
-            if (*e == 0) break;
-            if (opened > 0) continue;
-            size_t varlen = (size_t)(e - s - 2);
-            char *var = hm_alloc(varlen + 4); memcpy(var, s + 2, varlen); var[varlen] = 0;
-            const char *nw = NULL;
-            if (var[0] == '!') nw = "";
-            else if (var[0] == '%') { nw = varlen > 1 ? getenv(var + 1) : ""; if (!nw) nw = ""; }
-            else if (varlen == 0) nw = "";
-            else { nw = kv_get(var); if (!nw) { hm_free(var); s = e; continue; } }
-            char *tok = hm_alloc(varlen + 4); memcpy(tok, s, varlen + 3); tok[varlen + 3] = 0;
-            char *nv = replace_all(value, tok, nw);
-            hm_free(tok); hm_free(var); hm_free(value); value = nv; loop = true; break;
-        }
-        if (++rounds > 300 || strlen(value) > (1u << 17)) { hm_free(value); return NULL; }
-    } while (loop);
-    return value;
-}
-/* true when the documented semantics itself never terminates on this document */
-static bool ini_diverges(const char *text, char sep) {
-    kv_clear();
-    char *org = vf_xdup(text, strlen(text) + 1), *off = org, *section = NULL; bool div = false;
-    while (*off && !div) {
-        char *buf = off; while (*off != '\n' && *off) off++;
-        if (*off) { *off = 0; off++; }
-        char *line = vf_xdup(buf, strlen(buf) + 1); rtrim(line);
-        if (line[0] == '#' || !line[0]) { hm_free(line); continue; }
-        size_t ll = strlen(line);
-        char *work = hm_alloc(ll + 8); strcpy(work, line);
-        if (line[0] == '[' && line[ll - 1] == ']') {
-            hm_free(section); section = vf_xdup(line + 1, ll); section[strlen(section) - 1] = 0; rtrim(section);
-            if (!section[0]) { hm_free(section); section = NULL; hm_free(line); hm_free(work); continue; }
-            snprintf(work, ll + 8, "%c%s", sep, section);
-        }
-        char *p = strchr(work, sep); char *name, *value;
-        if (p) { *p = 0; name = vf_xdup(work, strlen(work) + 1); value = vf_xdup(p + 1, strlen(p + 1) + 1); } else { name = vf_xdup(work, strlen(work) + 1); value = vf_xdup("", 1); }
-        rtrim(name); rtrim(value);
-        char *full; if (section) { full = hm_alloc(strlen(section) + strlen(name) + 2); sprintf(full, "%s.%s", section, name); } else full = vf_xdup(name, strlen(name) + 1);
-        char *nv = ref_parsestr(value);
-        if (!nv) div = true; else { kv_put(full, nv); hm_free(nv); }
-        hm_free(full); hm_free(name); hm_free(value); hm_free(line); hm_free(work);
-    }
-    hm_free(section); hm_free(org); kv_clear();
-    return div;
-}
-
-/* port of the @INCLUDE splice of qconfig_parse_file (classification only): returns the spliced text, or NULL when
- * the library gives up before parsing (missing / over-long include) */
-static char *ref_splice(const char *text, const char *filepath) {
-    char *str = vf_xdup(text, strlen(text) + 1); char *strp = str; int guard = 0;
-    char dir[700]; snprintf(dir, sizeof dir, "%s", filepath); { char *sl = strrchr(dir, '/'); if (sl) { if (sl == dir) sl[1] = 0; else *sl = 0; } else snprintf(dir, sizeof dir, "."); }
-    while ((strp = strstr(strp, "@INCLUDE ")) != NULL) {
-        if (!(strp == str || strp[-1] == '\n')) { strp += 9; continue; }
-        if (++guard > 64) { hm_free(str); return NULL; }
-        char *e = strp + 9; while (*e != '\n' && *e) e++;
-        size_t len = (size_t)(e - (strp + 9));
-        if (len >= 4096) { hm_free(str); return NULL; }
-        char buf[4200]; memcpy(buf, strp + 9, len); buf[len] = 0; rtrim(buf);
-        char full[5000];
-        if (buf[0] == '/' || buf[0] == '\\') snprintf(full, sizeof full, "%s", buf);
-        else { if (strlen(dir) + 1 + strlen(buf) >= 4096) { hm_free(str); return NULL; } snprintf(full, sizeof full, "%s/%s", dir, buf); }
-        if (!buf[0]) { hm_free(str); return NULL; }
-        FILE *f = fopen(full, "rb"); if (!f) { hm_free(str); return NULL; }
-        size_t cap = 1 << 16, n = 0; char *inc = hm_alloc(cap + 1); size_t r;
-        while ((r = fread(inc + n, 1, cap - n, f)) > 0) { n += r; if (n == cap) { cap *= 2; inc = vf_xrealloc(inc, cap + 1); } }
-        fclose(f); inc[n] = 0;
-        char *tok = hm_alloc(len + 10); memcpy(tok, strp, 9 + len); tok[9 + len] = 0;
-        char *ns = replace_all(str, tok, inc);
-        hm_free(tok); hm_free(inc); hm_free(str); str = ns; strp = str;
-        if (strlen(str) > (1u << 22)) { hm_free(str); return NULL; }
-    }
-    return str;
-}
+#include "ini_ref.h"
 
 /* ---- one evaluation --------------------------------------------------------------------------------- */
 static char *no_cb(qaconf_cbdata_t *d, void *ud) { (void)ud; size_t t = 0; for (int i = 0; i < d->argc; i++) t += strlen(d->argv[i]); for (qaconf_cbdata_t *p = d->parent; p; p = p->parent) t += strlen(p->argv[0]); vf_count("apache_callbacks", t ? 1 : 1); return NULL; }
